@@ -813,6 +813,8 @@ impl<'ast> VisitorMut<'ast> for BindingCollectorVisitor<'_> {
         let name = node.name().to_js_string(self.interner);
         name_scope.create_immutable_binding(name, true);
         std::mem::swap(&mut self.scope, &mut name_scope);
+        // All parts of a class are strict mode code.
+        let old_strict = std::mem::replace(&mut self.strict, true);
         if let Some(super_ref) = &mut node.super_ref {
             self.visit_expression_mut(super_ref)?;
         }
@@ -822,6 +824,7 @@ impl<'ast> VisitorMut<'ast> for BindingCollectorVisitor<'_> {
         for element in &mut *node.elements {
             self.visit_class_element_mut(element)?;
         }
+        self.strict = old_strict;
         std::mem::swap(&mut self.scope, &mut name_scope);
         node.name_scope = name_scope;
         ControlFlow::Continue(())
@@ -843,6 +846,8 @@ impl<'ast> VisitorMut<'ast> for BindingCollectorVisitor<'_> {
             name_scope = Some(scope);
         }
 
+        // All parts of a class are strict mode code.
+        let old_strict = std::mem::replace(&mut self.strict, true);
         if let Some(super_ref) = &mut node.super_ref {
             self.visit_expression_mut(super_ref)?;
         }
@@ -852,6 +857,7 @@ impl<'ast> VisitorMut<'ast> for BindingCollectorVisitor<'_> {
         for element in &mut *node.elements {
             self.visit_class_element_mut(element)?;
         }
+        self.strict = old_strict;
         if let Some(mut scope) = name_scope {
             std::mem::swap(&mut self.scope, &mut scope);
         }
@@ -1209,6 +1215,8 @@ impl BindingCollectorVisitor<'_> {
         arrow: bool,
     ) -> ControlFlow<&'static str> {
         let strict = self.strict || strict;
+        // Code nested in a strict function is strict as well.
+        let old_strict = std::mem::replace(&mut self.strict, strict);
         let old_in_arrow = self.in_arrow;
         self.in_arrow = arrow;
 
@@ -1245,6 +1253,7 @@ impl BindingCollectorVisitor<'_> {
         *scopes = function_scopes;
 
         self.in_arrow = old_in_arrow;
+        self.strict = old_strict;
 
         ControlFlow::Continue(())
     }
